@@ -317,6 +317,12 @@ class CEval(object):
             raise OutOfSubset('at_loop_entry() outside loop invariant')
         return CEval(self.ex, le, self.entry, self.result, le, le.locals).ev(n.args[0])
 
+    def i_at_iter_start(self, n):
+        it = getattr(self.ex, 'iter_start', None)
+        if it is None:
+            raise OutOfSubset('at_iter_start() outside a loop body')
+        return CEval(self.ex, it, self.entry, self.result, self.loop_entry, it.locals).ev(n.args[0])
+
     def i_len(self, n):
         v = self.ev(n.args[0])
         if v.pt.kind in ('dict', 'ddict'):
